@@ -17,11 +17,15 @@ let run (cases : string) : unit =
             (b01 (in_work_dir p))
             (b01 (matches_extensions exts p))
             (b01 (watch_filter exts p))
-      | [ "G"; id; hp; ex; files ] ->
-          (* the conjunct added by the repair of D16: is this path ANOTHER file in the directory of a file watched by path? *)
+      | [ "G"; id; hp; ex; declared; files ] ->
+          (* the conjunct added by the repair of D16: is this path something else than a declared path, in the directory of a
+             file watched by path? *)
           let p = unhex hp in
-          let files = if files = "-" then [] else List.map unhex (String.split_on_char ',' files) in
+          let lst f = if f = "-" then [] else List.map unhex (String.split_on_char ',' f) in
+          let declared = lst declared and files = lst files in
           let exts = parse_exts ex in
-          Printf.printf "%s other=%s relevant=%s\n" id (b01 (other_in_file_dir files p)) (b01 (watch_filter2 files exts p))
+          Printf.printf "%s other=%s relevant=%s\n" id
+            (b01 (other_in_file_dir declared files p))
+            (b01 (watch_filter2 declared files exts p))
       | _ -> Printf.printf "? BADCASE\n")
     (read_lines cases)
